@@ -35,11 +35,32 @@ def run(ctx, model_ok):
                             "distinct = distinct (kind, canonical result) pairs (input lines for the coordinate rows); place rows: place_and_orient_model3d on dict traces (x/y/z or custom keys, "
                             "other entries, 1-d and 2-d coordinate arrays) and args tuples (default and custom coordsargs), orientation None / octahedral, position None / integer, scale and "
                             "length_factor 1 or 2^-2..2^3, **kwargs overriding entries, missing key / args index out of range / different shapes (error kind), all return_* combinations, "
-                            "inputs compared before / after, against Display.placeModel, exact on the 1/64 grid")
-    ctx.cov["not_shown"] = ["index arrays of make_Ellipsoid / make_CylinderSegment (their vertex coordinates are modelled and proved on the surface, the triangulation "
-                            "between them is not), make_Arrow, make_Sensor, arrow traces of currents (draw_arrow_on_circle / draw_arrow_from_vertices), "
-                            "trace grouping/merging, plotly/matplotlib/pyvista glue: "
-                            "display oracle only (plotly backend; matplotlib/pyvista not exercised)",
+                            "inputs compared before / after, against Display.placeModel, exact on the 1/64 grid; idx rows (Model/DisplayIdx.lean): make_Ellipsoid i/j/k for every N = 0..40, "
+                            "make_CylinderSegment i/j/k for vert 3..60 x 10 angle ranges (exact 360, 360 up to rounding, beyond 360, zero / reversed span, r1 = 0) plus random, make_Arrow i/j/k "
+                            "(N 0..30) and vertices, merge_mesh3d / merge_scatter3d on random small integer traces (error kinds, None separators, first-input mutation counted), make_path + "
+                            "rescale_traces bit-exact, unit_prefix / get_unit_factor for 10^k * {0.999, 1, 1.001, 5}, k = -27..27, nextafter neighbours of powers of ten and random values, "
+                            "get_scene_ranges + rmax + auto unit on random scatter / mesh traces bit-exact")
+    ctx.cov["not_shown"] = ["make_Sensor, arrow traces of currents (draw_arrow_on_circle / draw_arrow_from_vertices), group_traces (which traces are put into one group: the "
+                            "string key built from legendgroup / opacity / row / col / color / ...), merge_traces' dispatch by type, subdivide_mesh_by_facecolor, "
+                            "plotly/matplotlib/pyvista glue: display oracle only (plotly backend; matplotlib/pyvista not exercised). Modelled and tied since the ninth batch "
+                            "(Model/DisplayIdx.lean, rows ellidx / segidx / arrow / arrowv / mmesh / mscat / path / autounit / ranges): index arrays of make_Ellipsoid (closed for every "
+                            "N >= 4: ellipsoid_mesh_closed) and make_CylinderSegment (closed for every arc count whenever phi2 - phi1 != 360: cylinder_segment_mesh_closed; exactly 360: "
+                            "no caps and the seam columns are different rows holding the same points, 8 index-level open edges, cylinder_segment_full_turn_seam_open), make_Arrow, "
+                            "merge_mesh3d / merge_scatter3d, make_path + rescale_traces, unit_prefix / get_unit_factor as used by units_length='auto', get_scene_ranges for one subplot",
+                            "CylinderSegment winding: the two triangles of the START cap are wound opposite to the rest of the surface (cylinder_segment_start_cap_winding_witness, "
+                            "decided for arc count 5; the cap index pattern does not depend on the size) - not proved for every N; consistent orientation of the Ellipsoid triangulation "
+                            "is checked by the probe for N = 4..41 but is not a theorem",
+                            "merge_mesh3d model: x/y/z/i/j/k mandatory (the real function skips i/j/k missing from the FIRST trace), intensity / facecolor as optional arrays, other "
+                            "entries as opaque tags; a later trace whose facecolor / intensity is None while the first has an array (numpy would hstack the None) is not in the model; "
+                            "merge_scatter3d: the theorem needs the two string facts 'mode non-empty' and '\"line\" in mode' as hypotheses (string literals do not reduce in the "
+                            "kernel; the mscat rows run the full function, incl. the write of mode='markers' into the first INPUT dict, which is counted)",
+                            "units_length='auto': auto_unit_factor_bounds is about the real-number carrier (int(log10(x)) = truncation towards zero of the exact logarithm); in IEEE double "
+                            "log10 of a number just below a power of ten can round up to the integer (the autounit rows compare the Float model with the real function on nextafter(10^k, "
+                            "0 / inf) and 10^k * {0.999, 1, 1.001, 5}, k = -27..27). Below 1 the displayed number lies in (0.1, 100], not [1, 1000) (second clause of the theorem). "
+                            "get_scene_ranges is modelled for ONE subplot of NaN-free 3-d traces (rows `ranges`); rows / cols, 2-d traces, 'constructor' traces (extra backend models) and "
+                            "the zoom dict are not; that get_frames passes exactly these ranges to unit_prefix is read off the code, the two lines are repeated in the harness",
+                            "path trace: make_path draws ALL path positions (not only the displayed frames) iff the path has > 1 position and style.path.show; its grouping with other "
+                            "scatter traces of the same style (group_traces) is not modelled; marker / line / text styling is not modelled",
                             "polygonal approximation: theorems say the vertices lie ON the cylinder / ellipsoid / circle; the distance of the facets between "
                             "vertices from the true surface is not bounded by a theorem; IEEE rounding of sin/cos (first and last circle point differ by "
                             "sin(fl(2pi))*d/2 ~ 1.2e-16 d in double, equal in exact arithmetic)",
@@ -55,9 +76,8 @@ def run(ctx, model_ok):
                             "index tables are hand-copied literals pinned by the disp stream, not regenerated",
                             "'spans the full extent': Cylinder graphic x = -d/2 only for even N and y = +-d/2 only when 4 | N (default 50: not); Sphere graphic: only the z-extent (poles); "
                             "CylinderSegment: the 8 corners",
-                            "path line through the path positions, 'displaying never modifies objects, styles or defaults' (style_temp_edit), axis title unit = factor applied by rescale_traces, "
-                            "collections / nesting: no model and no theorem, display oracle only; unit_factor_table is a decide over the 18 recorded outputs of get_unit_factor and says nothing "
-                            "about which factor show() applies"]
+                            "'displaying never modifies objects, styles or defaults' (style_temp_edit), axis title unit = factor applied by rescale_traces for an EXPLICIT units_length, "
+                            "collections / nesting: no model and no theorem, display oracle only; unit_factor_table is a decide over the 18 recorded outputs of get_unit_factor"]
 
 
 def replay(ctx, payload):
